@@ -191,8 +191,13 @@ func VT_C06_CorruptMasks() {
 	f := NewResponseFilter(WithFieldMask(mask))
 	err := f.Validate(orig)
 	vt.Assert(status.Code(err) == codes.InvalidArgument, "corrupt-mask-reported-invalid")
-	panicked, _ := vt.Try(func() { f.FilterClone(orig) })
+	var projected proto.Message
+	panicked, _ := vt.Try(func() { projected = f.FilterClone(orig) })
 	vt.Assert(!panicked, "corrupt-mask-never-panics-filter-clone")
+	if !panicked && len(mask.Paths) == 1 {
+		// the single path selects no field of the message: the projection is empty, never the whole value
+		vt.Assert(proto.Equal(projected, &testproto.TestAllTypes{}), "mask-selecting-no-field-projects-to-nothing")
+	}
 	vt.Assert(proto.Equal(orig, before), "corrupt-mask-read-does-not-alter-message")
 	c := proto.Clone(orig)
 	panicked2, _ := vt.Try(func() { f.Filter(c) })
